@@ -2068,6 +2068,8 @@ class FuncInsertAt(ValueFunc):
         index = args.getInt("index").value
         if index < 0:
             index = len(lst.value) + index + 1
+            if index < 0:
+                return lst
 
         value = args.get("value")
 
